@@ -74,20 +74,26 @@ def publishConnect (src : Obsv) (sj : Subj) (k : Data → Prog) : Prog :=
 
 /-! ### ref_count / replay: connect on the first subscriber, disconnect when the last one leaves -/
 structure RefC where
-  connected : Nat     -- cell: bool
+  connected : Nat     -- cell: bool  (`connecting`)
   subscription : Nat  -- cell: Option<Subscription>
+  cancelled : Nat     -- cell: bool
 deriving Inhabited
 
 def refCountHooks (rc : RefC) (src : Obsv) (onSubSlot onUnsubSlot : Nat)
     (next : Data → Prog) (error : Nat → Prog) (complete : Prog) : Prog :=
   .slotSet onUnsubSlot (fun count =>
-      if count.toInt == 0 then .cellRead rc.subscription false fun h => subUnsub h else .done) <|
+      if count.toInt == 0 then .cellRead rc.subscription false fun h =>
+        match h with
+        | .lnil => .cellWrite rc.cancelled false (.bool true) .done
+        | h => subUnsub h
+      else .done) <|
   .slotSet onSubSlot (fun count =>
       if count.toInt == 1 then
         .cellRead rc.connected false fun c =>
           if c.toBool then .done else
           .cellWrite rc.connected false (.bool true) <|
-          subscribeWith src next error complete fun h => .cellWrite rc.subscription false h .done
+          subscribeWith src next error complete fun h => .cellWrite rc.subscription false h <|
+            .cellRead rc.cancelled false fun c => if c.toBool then subUnsub h else .done
       else .done) .done
 
 end Rx
